@@ -9,14 +9,14 @@
     [shape_equiv], [in_region_shape] (exact geometry of Geom/ContainsSpec.v). *)
 From Coq Require Import ZArith List String Bool Lia.
 From L21 Require Import Base.Outcome Raw.RawData Raw.RawGdsExport Raw.RawGdsExportSpec
-                        Raw.RawGdsExport_proofs Raw.RawGdsRoundtrip_proofs.
+                        Raw.RawGdsExport_proofs Raw.RawGdsRoundtrip_proofs Raw.RawGdsBridge_proofs
+                        Raw.RawGdsLibrary_proofs.
 From L21 Require Gds.GdsData Geom.Contains Geom.ContainsSpec Raw.RawGds.
 Import ListNotations.
 Local Open Scope Z_scope.
 
-(** The place where the (repaired) exporter puts a shape's label. *)
-Definition label_of (s : shape) : option point :=
-  match label_location xcfg_fixed s with Ok p => Some p | _ => None end.
+(** [label_of s] (Raw/RawGdsBridge_proofs.v): the place where the repaired exporter puts the label
+    of shape [s] ([label_location xcfg_fixed s], when it succeeds). *)
 Definition labels_unambiguous (L : library) : Prop := labels_unambiguous_at label_of L.
 
 (** * The round trip, full statement (DESIGN.md section 5/C07).  NOT proved as a whole; the
@@ -130,7 +130,7 @@ Theorem C07_layout_roundtrip_model :
     export_layout xcfg_fixed ly cells l = Ok g ->
     Forall elem_shape_ok (lay_elems l) ->
     (forall i ci, In i (lay_insts l) -> nth_error cells (i_cell i) = Some ci ->
-                  exists idx, RG.cm_get cm (c_name ci) = Some idx) ->
+                  exists idx, RG.cm_get cm (bytes_of_string (c_name ci)) = Some idx) ->
     (forall ej nm loc ek, In ej (lay_elems l) -> e_net ej = Some nm ->
         label_location xcfg_fixed (e_shape ej) = Ok loc -> point_i32b loc = true -> In ek (lay_elems l) ->
         exists b, RG.shape_contains c (ishape ek) loc = RG.IOk b) ->
@@ -148,6 +148,61 @@ Theorem C07_layout_roundtrip_model :
                Forall2 (elem_rel ly) (lay_elems l) (lay_elems l') /\
                lay_annots l' = [].
 Proof. exact layout_roundtrip_model. Qed.
+
+(** * (8) The same from exact geometry.  First: every label the repaired exporter emits for a shape
+    in range lies inside that shape (rectangles, paths, and polygons -- the latter by the C13
+    theorem about the repaired [Polygon::contains]; region = closed non-zero-winding region, which
+    is the closed even-odd region whenever the signed crossing number stays within {-1,0,1}). *)
+Theorem C07_label_inside :
+  forall s p, shape_okb s = true -> label_location xcfg_fixed s = Ok p -> in_region_shape_nz s p.
+Proof. exact label_inside_nz. Qed.
+
+(** Second: on the shape an element comes back with, the importer's [contains] (repaired
+    [Polygon::contains]; either variant of [Path::contains]) decides exactly that region, without
+    overflow, for every point with i32 coordinates. *)
+Theorem C07_contains_is_region :
+  forall c s q, RG.fx_contains c = true -> shape_okb s = true -> point_i32b q = true ->
+    exists b, RG.shape_contains c (imp_shape s) q = RG.IOk b /\ (b = true <-> in_region_shape_nz s q).
+Proof. exact contains_region. Qed.
+
+(** Hence the layout round trip under the hypotheses of the property: elements in range
+    ([elem_okb]: layer/purpose registered, Label purpose registered for named ones, ASCII nets,
+    shapes in range) and unambiguous labels. *)
+Theorem C07_layout_roundtrip :
+  forall c ly cells cm l g ev,
+    RG.fx_contains c = true ->
+    layers_okb ly = true ->
+    export_layout xcfg_fixed ly cells l = Ok g ->
+    forallb (elem_okb ly) (lay_elems l) = true ->
+    (forall i ci, In i (lay_insts l) -> nth_error cells (i_cell i) = Some ci ->
+                  exists idx, RG.cm_get cm (bytes_of_string (c_name ci)) = Some idx) ->
+    all_some (map (elem_view ly) (lay_elems l)) = Some ev ->
+    unambiguous_view_gen in_region_shape_nz label_of ev ->
+    exists l', RG.import_layout c cm ly g = RG.IOk (ly, l') /\
+               lay_name l' = lay_name l /\
+               Forall2 (inst_rel cells cm) (lay_insts l) (lay_insts l') /\
+               Forall2 (elem_rel ly) (lay_elems l) (lay_elems l') /\
+               lay_annots l' = [].
+Proof. exact layout_roundtrip_spec. Qed.
+
+(** * (9) The whole library.  For every library in the input space ([exportable]) whose cells all
+    have layouts ([all_layouts]) and whose labels are unambiguous (non-zero-winding region for
+    polygons): whenever the repaired exporter returns a GDSII library, the importer model -- any
+    variant with the repaired [Polygon::contains] and the Pico row of [import_units] -- imports it
+    with the same layer table into a library that is [raw_equiv] to the source: same units, same
+    number of cells, every cell found by name with the same instances (target cell name, location,
+    reflection, angle) in order and the same shapes (layer number, purpose number, shape modulo
+    representation, lower-cased net) in order.  The nested hierarchy is handled through the C17
+    theorem on the repaired GdsDepOrder.  PARTIAL with respect to [C07_roundtrip_full]:
+    abstract-only cells are excluded, the region is the non-zero-winding one, and the success of
+    the export is a hypothesis here. *)
+Theorem C07_roundtrip_layouts_partial :
+  forall c L g,
+    RG.fx_contains c = true -> RG.fx_pico c = true ->
+    exportable L -> all_layouts L -> labels_unambiguous_nz_at label_of L ->
+    export_lib L = Ok g ->
+    exists L', RG.import_lib c (lib_layers L) g = RG.IOk L' /\ raw_equiv L L'.
+Proof. exact roundtrip_layouts. Qed.
 
 (** * Non-vacuity: a library with two cells (one instantiating the other, reflected and rotated),
     a rectangle with swapped corners and a mixed-case net, a U-shaped polygon whose bounding-box
@@ -188,3 +243,7 @@ Print Assumptions C07_shape_roundtrip_polygon.
 Print Assumptions C07_shape_roundtrip_rect.
 Print Assumptions C07_shape_roundtrip_path.
 Print Assumptions C07_layout_roundtrip_model.
+Print Assumptions C07_label_inside.
+Print Assumptions C07_contains_is_region.
+Print Assumptions C07_layout_roundtrip.
+Print Assumptions C07_roundtrip_layouts_partial.
